@@ -377,6 +377,31 @@ def rule_drop_on_failure(ctx: Ctx) -> None:
     # plaintext cells skip decryption by design (decrypt_cell returns early); they are then limited by the whitelist rule
 
 
+def rule_e2e_delivery(ctx: Ctx) -> None:
+    """Data of an end-to-end (rendezvous) circuit is opaque payload for BOTH parties: it is never interpreted as IPv8 control traffic."""
+    od = ctx.repo.method("TunnelCommunity", "on_data", TC)
+    cfg = ctx.cfg(od)
+    sites = [c for c in calls(od) if chain(c.func) in ("self.on_packet_from_circuit", "self.endpoint.notify_listeners")]
+    ctx.anchor(sites, "control delivery in on_data")
+    want = {"CIRCUIT_TYPE_RP_DOWNLOADER", "CIRCUIT_TYPE_RP_SEEDER"}
+    for s in sites:
+        ok = False
+        seen = None
+        for f in facts_at(cfg, s):
+            if f.op == "truthy" and not f.pos:
+                e = resolve(od, f.left)
+                seen = norm(e)
+                if isinstance(e, ast.Compare) and len(e.ops) == 1 and isinstance(e.ops[0], ast.In) and norm(e.left) == "circuit.ctype" \
+                        and isinstance(e.comparators[0], (ast.List, ast.Tuple, ast.Set)) and {norm(x) for x in e.comparators[0].elts} == want:
+                    ok = True
+        ctx.check(ok, "plaintext-whitelist", od, s, "IPv8-shaped data is interpreted as control traffic only on circuits that are neither RP_DOWNLOADER nor RP_SEEDER",
+                  f"on_data decides 'end-to-end payload' by `{seen}` instead of circuit.ctype in [RP_DOWNLOADER, RP_SEEDER]: on one side of an e2e circuit, payload that "
+                  "merely looks like IPv8 is dropped, misrouted or executed as a tunnel control message instead of being delivered byte-for-byte")
+    raw = [c for c in calls(od, "self.on_raw_data")]
+    ctx.check(len(raw) == 1 and [norm(a) for a in raw[0].args] == ["circuit", "origin", "data"], "plaintext-whitelist", od, od.node,
+              "other circuit data is handed to on_raw_data(circuit, origin, data) unchanged", "raw circuit data is not delivered unchanged")
+
+
 def rule_emitters(ctx: Ctx) -> None:
     repo = ctx.repo
     allowed_tb = {"PythonCryptoEndpoint.send_cell", "PythonCryptoEndpoint.relay_cell", "PythonCryptoEndpoint.process_cell"}
@@ -413,6 +438,7 @@ def run(ctx: Ctx) -> None:
     rule_plaintext(ctx)
     rule_crypto_before_send(ctx)
     rule_drop_on_failure(ctx)
+    rule_e2e_delivery(ctx)
     rule_emitters(ctx)
     ctx.assume("ChaCha20-Poly1305 in ipv8_rust_tunnels.SessionKeys.encrypt_str/decrypt_str: decrypt raises ValueError on any altered byte; ciphertexts under different keys differ (trusted)")
     ctx.assume("a Rust CryptoEndpoint (ipv8_rust_tunnels.Endpoint), when used instead of PythonCryptoEndpoint, is outside the analysed source")
